@@ -288,6 +288,43 @@ def prop_determinism(rec):
                                     .format(what, r.rc,
                                             r.err.strip()[-600:]), case)
                 results.append((what, collect(bld)))
+            # re-configuring a used build directory with other options gives
+            # what a fresh build directory gets with those options
+            other = [o if not o.startswith('--prefix=') else
+                     '--prefix=/opt/c13-other' for o in opts]
+            env = sandbox.base_env(os.path.join(tmp, 'home'),
+                                   extra={'PKG_CONFIG_PATH': depdir})
+            env['PYTHONHASHSEED'] = str(seeds[0])
+            r = sandbox.run([bfg, 'configure-into', src, bld] + other, src,
+                            env)
+            if r.rc != 0:
+                raise Violation('det/reconfigure-failed', r.err.strip()[-600:],
+                                case)
+            reconf = collect(bld)
+            os.rename(bld, bld + '.used')
+            os.makedirs(bld)
+            r = sandbox.run([bfg, 'configure-into', src, bld] + other, src,
+                            env)
+            if r.rc != 0:
+                raise HarnessError('configure with other prefix failed: ' +
+                                   r.err[-600:])
+            fresh_other = collect(bld)
+            for fn in fresh_other[0]:
+                if reconf[0].get(fn) != fresh_other[0][fn]:
+                    import difflib
+                    d = '\n'.join(list(difflib.unified_diff(
+                        fresh_other[0][fn].decode('utf-8', 'replace')
+                        .splitlines(),
+                        (reconf[0].get(fn) or b'').decode('utf-8', 'replace')
+                        .splitlines(), 'fresh build directory',
+                        're-configured build directory', lineterm='',
+                        n=0))[:10])
+                    raise Violation(
+                        'det/reconfigure-differs/' + fn.split('/')[0],
+                        '{} after re-configuring a used build directory with '
+                        '--prefix=/opt/c13-other differs from a fresh build '
+                        'directory configured the same way:\n{}'.format(
+                            fn, d[:1200]), case)
             base_what, (base_primary, base_aux) = results[0]
             for what, (primary, aux) in results[1:]:
                 if sorted(primary) != sorted(base_primary):
